@@ -48,7 +48,7 @@ package clickhouse_planner
 //@   ensures inInt(result, 0) == (ctx.Type == 0 ? 1 : ctx.Type) && inInt(result, 1) == 0
 
 // Log and metric sample reads: exactly [From, To) on the sample timestamp, and the signal type.
-//@ func (*SqlMainInitPlanner).Process [C13]
+//@ func (*SqlMainInitPlanner).Process [C07,C13]
 //@   modifies preWhereArgs
 //@   check window: len(preWhereArgs) == 3 && isIntCmp(preWhereArgs[0]) && isIntCmp(preWhereArgs[1]) &&
 //@         opOf(preWhereArgs[0]) == ">=" && intOf(preWhereArgs[0]) == ctx.From.UnixNano() &&
